@@ -137,7 +137,29 @@ func (x *Exec) shaSum(in []*Term) []*Term {
 		}
 	}
 	if x.params["freeDigest"] == 0 {
-		x.c.shaApps = append(x.c.shaApps, shaApp{in: append([]*Term{}, in...), out: out})
+		// a concrete input may coincide with an earlier symbolic one: then it has that application's digest
+		for j := len(x.c.shaApps) - 1; j >= 0; j-- {
+			app := x.c.shaApps[j]
+			if len(app.in) != len(in) || app.concrete {
+				continue
+			}
+			inEq := st.True
+			for i := range in {
+				inEq = st.And(inEq, st.Eq(app.in[i], in[i]))
+				if inEq.IsFalse() {
+					break
+				}
+			}
+			if inEq.IsFalse() {
+				continue
+			}
+			// case split rather than ite: both sides keep concrete ids (and concrete object paths) downstream
+			if x.c.Branch(inEq) {
+				out = app.out
+				break
+			}
+		}
+		x.c.shaApps = append(x.c.shaApps, shaApp{in: append([]*Term{}, in...), out: out, concrete: true})
 		return out
 	}
 	// Ackermann-style axioms: functional consistency + collision freedom w.r.t. every earlier application
